@@ -489,3 +489,57 @@ func (a *PDA) Key() string {
 	}
 	return string(b)
 }
+
+// Completion returns a shortest suffix that turns the input read so far into a complete valid
+// document, or nil if there is none (sink / trailing garbage) or nothing is needed.
+func (a *PDA) Completion() []byte {
+	if !a.Alive() || a.Phase == PDone {
+		return nil
+	}
+	var s []byte
+	closeAll := func(from int) {
+		for i := from; i >= 0; i-- {
+			if a.Ctx[i] == 'A' {
+				s = append(s, ']')
+			} else {
+				s = append(s, '}')
+			}
+		}
+	}
+	n := len(a.Ctx)
+	switch a.Phase {
+	case PTop, PArrNext, PObjVal:
+		s = append(s, '0')
+	case PLit:
+		s = append(s, a.Lit[a.LitI:]...)
+	case PNum:
+		switch a.Num {
+		case NMinus, NDot, NE, NESign:
+			s = append(s, '0')
+		}
+	case PStr:
+		switch a.Str {
+		case SEsc:
+			s = append(s, 'n')
+		case SU1:
+			s = append(s, "0000"...)
+		case SU2:
+			s = append(s, "000"...)
+		case SU3:
+			s = append(s, "00"...)
+		case SU4:
+			s = append(s, '0')
+		}
+		s = append(s, '"')
+		if a.IsKey {
+			s = append(s, ":0"...)
+		}
+	case PObjKey:
+		s = append(s, `"":0`...)
+	case PObjColon:
+		s = append(s, ":0"...)
+	case PArrFirst, PObjFirst, PAfterVal:
+	}
+	closeAll(n - 1)
+	return s
+}
